@@ -129,7 +129,7 @@ func buildFixture() *fixture {
 			return fail("AddOriginWithIndexKey: %v", err)
 		}
 	}
-	f.anon = [3][]byte{mc.Fill(seedBase, "anon-x", 32), mc.Fill(seedBase, "anon-y", 32), {}}
+	f.anon = [3][]byte{mc.Fill(seedBase, "anon-x", 32), mc.Fill(seedBase, "anon-y", 49), {}} // y is longer than an index
 	// U, the client for which no request is ever verified, is -A: its public key has A's x
 	// coordinate and the other sign octet (an unrelated unverified client is B in every history
 	// of the two-client search that has not verified B yet)
@@ -139,7 +139,9 @@ func buildFixture() *fixture {
 		cf := &f.cl[c]
 		cf.secret = secrets[c]
 		cf.pub = p384Pub(cf.secret)
-		cf.blind = [3][]byte{scDRBG(fmt.Sprintf("blind-%d", c)), sc(new(big.Int).Sub(scalarN(), big.NewInt(1))), scLeadingZero(fmt.Sprintf("blind-%d", c))}
+		// request blinds: a random scalar, 2^384-1 (a byte string above the group order: the blind is hashed,
+		// not used as a scalar) and a scalar with a leading zero byte
+		cf.blind = [3][]byte{scDRBG(fmt.Sprintf("blind-%d", c)), bytes.Repeat([]byte{0xff}, 48), scLeadingZero(fmt.Sprintf("blind-%d", c))}
 		for o := 0; o < 3; o++ {
 			st, err := w.Create(px.T3Args{Secret: cf.secret, Blind: cf.blind[o], Challenge: mc.Fill(seedBase, "chal", 32),
 				Nonce: mc.Fill(seedBase, fmt.Sprintf("nonce-%d-%d", c, o), 32), Origin: originName(o)})
